@@ -11,7 +11,7 @@ pub struct C13P;
 pub static C13: C13P = C13P;
 
 fn n_for(tier: Tier) -> usize {
-    tier.pick(4, 6)
+    tier.pick(4, 7)
 }
 
 fn idx_values(dim: usize, with_huge: bool) -> Vec<usize> {
